@@ -137,6 +137,8 @@ class TreeOpts:
         affine=True,
         cat_cols=("s",),
         flows=True,
+        flow_odds=4,
+        transform_odds=8,
     ):
         self.max_depth = max_depth
         self.kinds = tuple(kinds)
@@ -148,6 +150,8 @@ class TreeOpts:
         self.affine = affine
         self.cat_cols = cat_cols
         self.flows = flows  # non-Count aggregators in underflow/overflow/nanflow slots
+        self.flow_odds = flow_odds  # ... in one of flow_odds slots
+        self.transform_odds = transform_odds  # one of transform_odds Counts has a non-identity transform
 
 
 @st.composite
@@ -155,7 +159,7 @@ def leaf_specs(draw, o, kinds=None):
     ks = [k for k in (kinds or o.kinds) if k in LEAF_KINDS] or ["Count"]
     k = draw(st.sampled_from(ks))
     if k == "Count":
-        if o.count_transforms and draw(st.integers(0, 7)) == 0:
+        if o.count_transforms and draw(st.integers(0, o.transform_odds - 1)) == 0:
             return {"k": "Count", "transform": draw(st.sampled_from(("sq", "half")))}
         return {"k": "Count"}
     if k == "Bag":
@@ -185,7 +189,7 @@ def tree_specs(draw, o=None, depth=None, kinds=None):  # noqa: PLR0911, PLR0912
         return draw(tree_specs(o, d, ks or o.kinds))
 
     def flow():
-        if o.flows and draw(st.integers(0, 3)) == 0:
+        if o.flows and draw(st.integers(0, o.flow_odds - 1)) == 0:
             return child(min(depth - 1, 2))
         return {"k": "Count"}
 
@@ -489,16 +493,27 @@ def node_variants(s, parent_kind=None, siblings=1):
         mod("Bin.num+1", num=s["num"] + 1)
         mod("Bin.low-1", low=s["low"] - 1.0)
         mod("Bin.high+1", high=s["high"] + 1.0)
+        # differences far below any sensible comparison tolerance are differences all the same
+        tiny = 1e-9 * max(1.0, abs(s["low"]), abs(s["high"]))
+        if s["low"] - tiny < s["low"]:
+            mod("Bin.low-tiny", low=s["low"] - tiny)
+            mod("Bin.high+tiny", high=s["high"] + tiny)
         for slot in ("underflow", "overflow", "nanflow"):
             if s[slot]["k"] == "Count":
                 mod(f"Bin.{slot}:Count->Sum", **{slot: {"k": "Sum", "q": {"t": "num", "col": "z", "fl": "lambda"}}})
     elif k == "SparselyBin":
         mod("SparselyBin.binWidth*2", binWidth=s["binWidth"] * 2.0)
         mod("SparselyBin.origin+0.5", origin=s["origin"] + 0.5)
+        if s["binWidth"] * (1.0 + 1e-9) > s["binWidth"]:
+            mod("SparselyBin.binWidth*(1+tiny)", binWidth=s["binWidth"] * (1.0 + 1e-9))
+        if s["origin"] + 1e-9 * max(1.0, abs(s["origin"])) > s["origin"]:
+            mod("SparselyBin.origin+tiny", origin=s["origin"] + 1e-9 * max(1.0, abs(s["origin"])))
     elif k == "CentrallyBin":
         cs = sorted(s["centers"])
         mod("CentrallyBin.extra-trailing-centre", centers=cs + [cs[-1] + 16.0])
         mod("CentrallyBin.centre-moved", centers=cs[:-1] + [cs[-1] + 0.25])
+        if cs[-1] + 1e-9 * max(1.0, abs(cs[-1])) > cs[-1]:
+            mod("CentrallyBin.centre-nudged", centers=cs[:-1] + [cs[-1] + 1e-9 * max(1.0, abs(cs[-1]))])
     elif k in ("IrregularlyBin", "Stack"):
         key = "edges" if k == "IrregularlyBin" else "thresholds"
         es = list(s[key])
@@ -506,6 +521,8 @@ def node_variants(s, parent_kind=None, siblings=1):
         if es:
             mod(f"{k}.threshold-dropped", **{key: es[:-1]})
             mod(f"{k}.threshold-moved", **{key: es[:-1] + [es[-1] + 0.25]})
+            if es[-1] + 1e-9 * max(1.0, abs(es[-1])) > es[-1]:
+                mod(f"{k}.threshold-nudged", **{key: es[:-1] + [es[-1] + 1e-9 * max(1.0, abs(es[-1]))]})
         if free_type:
             other = "Stack" if k == "IrregularlyBin" else "IrregularlyBin"
             n = copy.deepcopy(s)
